@@ -63,10 +63,13 @@ def make_mutant_tree(mut):
                     ignore=shutil.ignore_patterns("__pycache__"))
     p = os.path.join(tmp, rel)
     s = open(p).read()
-    if s.count(old) != 1:
-        shutil.rmtree(tmp, ignore_errors=True)
-        raise core.HarnessError("mutant %s: anchor text occurs %d times in %s" % (name, s.count(old), rel))
-    open(p, "w").write(s.replace(old, new))
+    olds, news = (old, new) if isinstance(old, list) else ([old], [new])
+    for o, n in zip(olds, news):
+        if s.count(o) != 1:
+            shutil.rmtree(tmp, ignore_errors=True)
+            raise core.HarnessError("mutant %s: anchor text occurs %d times in %s" % (name, s.count(o), rel))
+        s = s.replace(o, n)
+    open(p, "w").write(s)
     return tmp
 
 
